@@ -411,6 +411,60 @@ def _ret_guarded_nonempty(k, call_t):
     return "dominating non-emptiness test of self.next_states" if all(found) else None
 
 
+def r4_fixpoint_loops(ctx, chk, rule="C06.4"):
+    """`while` loops reachable from solve() other than the two convergence sweeps must be recognised terminating idioms:
+    a worklist loop (judged by C07.3/5: every pushed state is marked first, so at most n pushes) or a fixed-point loop
+    `while not done: ...; done = (this round == previous round); previous = this round` over a quantity that can only
+    grow (here: the set of states nobody points to, since transition lists only shrink - C03.6)."""
+    sweeps = {"tad.py::Solver.value_iteration_reachability", "tad.py::Solver.value_iteration_total_rewards"}
+    scope = shared.solver_scope(ctx)
+    n = 0
+    for f in scope:
+        if not any(isinstance(x, ast.While) for x in walk_no_nested_defs(f.node)):
+            continue
+        if f.qual in sweeps:
+            continue
+        cls = f.cls.name if f.cls else None
+        sx = SymX(ctx, f, cls, inline_depth=0).run()
+        for L in sx.loops.values():
+            if L.kind != "while":
+                continue
+            n += 1
+            where = f.where(L.node)
+            c = L.cond
+            # worklist: `while pending:` with a pop in the body
+            if c[0] == "truthy" and c[1][0] == "acc":
+                pend = c[1][2]
+                pops = [x for x in walk_no_nested_defs(L.node) if isinstance(x, ast.Call) and isinstance(x.func, ast.Attribute) and x.func.attr in ("pop", "popleft")
+                        and isinstance(x.func.value, ast.Name) and x.func.value.id == pend]
+                if pops:
+                    chk.ok(rule, where, "worklist loop `while %s` pops one state per iteration; pushes are bounded by the visited marks (C07.3/C07.5)" % pend)
+                    continue
+            # fixed point
+            if c[0] == "not" and c[1][0] == "truthy" and c[1][1][0] == "acc":
+                done = c[1][1][2]
+                u = L.update.get(done)
+                ok = False
+                if u is not None and u[0] == "cmp" and u[1] == "==":
+                    sides = (u[2], u[3])
+                    prev = [x for x in C02._sub(u) if x[0] == "acc" and x[1] == L.id]
+                    cur = [x for x in C02._sub(u) if x[0] == "res"]
+                    if prev and cur:
+                        pv = prev[0][2]
+                        # previous := this round's value
+                        if L.update.get(pv) is not None and any(x == cur[0] for x in C02._sub(L.update[pv])) or L.update.get(pv) == cur[0]:
+                            ok = True
+                if ok and not L.has_break:
+                    chk.ok(rule, where, "fixed-point loop: `%s` becomes true when two consecutive rounds agree, and the previous round is replaced by the current one" % done)
+                    continue
+                chk.violation(rule, where, "the loop `while not %s` does not have the fixed-point exit 'this round == previous round' (update `%s`): it may never terminate, or stop before the pruning is stable" % (
+                    done, show(u)[:120] if u is not None else None), expected="%s = (current == previous); previous = current" % done, found=show(u)[:160] if u is not None else "none",
+                    construct="%s fixed-point exit" % f.short)
+                continue
+            chk.undecided(rule, where, "termination idiom of `while %s` not recognised" % src(L.node.test))
+    chk.extra["auxiliary_while_loops"] = n
+
+
 def r3c_division(ctx, chk, rule="C06.3c"):
     scope = shared.solver_scope(ctx)
     n = 0
@@ -448,6 +502,7 @@ def run(ctx, chk):
     r3b_constant_subscripts(ctx, chk)
     r3c_division(ctx, chk)
     r3e_builtin_on_empty(ctx, chk)
+    r4_fixpoint_loops(ctx, chk)
     shared.rule_no_recursion(ctx, chk, "C06.3d", [ctx.func("tad.py::StochasticGame.solve")], "solve()")
     C03.r1(ctx, chk, "C06.pre:C03.1")
     C07.r1_no_recursion(ctx, chk, "C06.pre:C07.1")
